@@ -19,7 +19,7 @@ import (
 // space and its output index compared with the model.
 
 var c19Headers = []string{"A", "b c", "x1", "É", "", "Ab", "k", "home_city"}
-var c19Fields = []string{"", "a", "a,b", "q\"q", "l1\nl2", "é"}
+var c19Fields = []string{"", "a", "a,b", "q\"q", "l1\nl2", "é", " a\t"}
 
 // normHeader re-implements the naming rule from the property statement.
 func normHeader(h string) string {
@@ -277,7 +277,13 @@ func c19Worker(ctx *rt.Ctx, job *rt.Job) []*rt.Violation {
 	}
 	if a.Cols == 0 {
 		// malformed inputs and pre-existing outputs
-		for _, raw := range []string{"<empty>", "a,b\n1\n", "a,b\n1,2,3\n", "a,b\n1,2\n3\n", "a\nx\"y\n", "a\n\"unterminated\n", "a,b\n\"x\"y,1\n"} {
+		// well-formed inputs with unquoted leading blanks (kept by a default csv reader) and a bare quote after a blank
+		for _, raw := range []string{"a,b\n x,\ty\n  , z\n", "a, b\n1,2\n", " a\n x\n"} {
+			if !run(c19Case{Raw: raw}) {
+				return vs
+			}
+		}
+		for _, raw := range []string{"<empty>", "a,b\nx, \"y\"\n", "a,b\n1\n", "a,b\n1,2,3\n", "a,b\n1,2\n3\n", "a\nx\"y\n", "a\n\"unterminated\n", "a,b\n\"x\"y,1\n"} {
 			if !run(c19Case{Raw: raw}) {
 				return vs
 			}
